@@ -13,7 +13,8 @@ RULE = ('corpus; exhaustive scope: every binary image of every shape r x c with 
         'edge, empty and full images, bool and 0/1 integer dtypes, 6 memory layouts. Non-trivial = the image has a '
         'foreground pixel and thin/hull/euler are not all trivial (thin changes it, or it has a hole, or >3 hull '
         'corners); distinct = distinct (shape, dtype, layout, pixels).')
-ASSUMPTIONS = ['2-D images whose values are 0/1 (bool or integer dtype); euler in its default border mode '
+ASSUMPTIONS = ['thin with an explicit max_iter is judged on subset / component count / model only (idempotence is stated for full thinning)',
+               '2-D images whose values are 0/1 (bool or integer dtype); euler in its default border mode '
                "(mode='constant': the image is surrounded by background)",
                'convexhull/fill_convexhull are given C-contiguous or strided *writable* inputs (read-only inputs are '
                'rejected by the native guard: a C08 matter, not examined here)',
@@ -51,16 +52,17 @@ def _lines(shape, data, thin_got=None, hull_got=None, maxiter=-1):
     return [l1, l2, l3]
 
 
-def _run_real(A, hull_ok=True):
+def _run_real(A, hull_ok=True, maxiter=None):
     """all real-code observations for one image"""
     import mahotas as mh
     from mahotas.polygon import convexhull, fill_convexhull
     out = {}
     before = A.copy()
     try:
-        t = mh.thin(A)
+        t = mh.thin(A) if maxiter is None else mh.thin(A, maxiter)
         out['thin'] = t
-        out['thin2'] = mh.thin(t)
+        # idempotence is stated for full thinning only
+        out['thin2'] = mh.thin(t) if maxiter is None else t
         out['e8'] = mh.euler(A, 8)
         out['e4'] = mh.euler(A, 4)
         if hull_ok:
@@ -158,13 +160,13 @@ def _eval_single(cases):
         A0 = _arr(case)
         layout = case.get('layout', 'C')
         A = gen.relayout(A0, layout)
-        real = _run_real(A, hull_ok=(layout != 'readonly'))
+        real = _run_real(A, hull_ok=(layout != 'readonly'), maxiter=case.get('maxiter'))
         if 'raised' in real:
             raised.append((case, real))
             continue
         tg = [int(v != 0) for v in real['thin'].ravel().tolist()]
         hg = [int(v) for v in real['hull'].ravel().tolist()] if 'hull' in real else None
-        lines += _lines(case['shape'], case['data'], tg, hg)
+        lines += _lines(case['shape'], case['data'], tg, hg, maxiter=(-1 if case.get('maxiter') is None else case['maxiter']))
         pend.append((case, A, real, layout))
     drvs = core.drive(lines)
     byid = {}
@@ -176,6 +178,7 @@ def _eval_single(cases):
         byid[id(case)] = (dict(findings=f, nontrivial=_nontrivial(A, real, drv[1]),
                         sig=f"{case['shape']}{case.get('dtype', 'bool')}{layout}{hash(tuple(case['data']))}",
                         tags=dict(dtype=case.get('dtype', 'bool'), layout=layout, kind=case.get('gen', 'corpus'),
+                                  max_iter=('default' if case.get('maxiter') is None else str(case['maxiter'])),
                                   size=('<=15px' if A.size <= 15 else '<=100px' if A.size <= 100 else '>100px'),
                                   fill=('empty' if not A.any() else 'full' if A.all() else 'mixed'))))
     return [byid[id(c)] for c in cases]
@@ -316,7 +319,10 @@ def cases(rng, tier):
         A, g = _rand_image(rng)
         dtype = rng.choice(['bool', 'bool', 'bool', 'uint8', 'int32', 'uint16'])
         layout = rng.choice(gen.LAYOUTS)
-        out.append(dict(shape=list(A.shape), data=[int(v) for v in A.ravel().tolist()], dtype=dtype, layout=layout, gen=g))
+        c = dict(shape=list(A.shape), data=[int(v) for v in A.ravel().tolist()], dtype=dtype, layout=layout, gen=g)
+        if rng.random() < 0.12:
+            c['maxiter'] = rng.choice([0, 1, 2, 3, -1, -5])     # partial thinning: subset / components / model still apply
+        out.append(c)
     return out
 
 
@@ -332,6 +338,8 @@ def shrink(case):
                 yield dict(case, shape=list(B.shape), data=[int(x) for x in B.ravel().tolist()])
     if case.get('layout', 'C') != 'C':
         yield dict(case, layout='C')
+    if case.get('maxiter') is not None:
+        yield {k: v for k, v in case.items() if k != 'maxiter'}
     if case.get('dtype', 'bool') not in ('bool', 'uint8'):
         yield dict(case, dtype='uint8')
     for i, v in enumerate(data):
